@@ -112,6 +112,14 @@ static unsigned char pat(int tag, std::size_t i)
 // has to keep it until MPI reports the request complete.  The destructor of the owning handle logs the release
 // (`x.rel`, ordered against the mpi.* events by the model), checks that a receive buffer has been filled, and
 // scrubs the memory so that a send buffer released too early is seen by the matching receive.
+static std::vector<unsigned char*> g_graveyard;
+static std::atomic<bool> g_grave_lock{false};
+static void bury(unsigned char* p)
+{
+    while (g_grave_lock.exchange(true)) {}
+    g_graveyard.push_back(p);
+    g_grave_lock.store(false);
+}
 struct owned_buf
 {
     unsigned char* p{nullptr};
@@ -164,8 +172,10 @@ struct owned_buf
                 monitor("arguments released before the transfer: the buffer owned by receive " + std::to_string(id) + " (" +
                     std::to_string(n) + " bytes) was destroyed with " + std::to_string(bad) + " bytes not yet received");
         }
+        // scrubbed, but the memory itself is only given back at the end of the round: a release that comes too early
+        // must show up as an ordering / data violation with a complete log, not as a crash inside MPI
         std::memset(p, 0xDD, n);
-        delete[] p;
+        bury(p);
         p = nullptr;
     }
 };
@@ -485,6 +495,8 @@ static int pika_main()
         // release the operation states of this round (their addresses may be reused by the next round)
         for (auto* os : g_states) delete os;
         g_states.clear();
+        for (auto* q : g_graveyard) delete[] q;
+        g_graveyard.clear();
         for (int i = first_op; i < next_op; ++i)
         {
             opinfo& o = (*g_ops)[i];
